@@ -60,7 +60,7 @@ def run_demo():
     return res
 
 
-meta = {"property": prop, "k": int(k), "worktree_commit": sh("git rev-parse --short HEAD")[1].strip(), "ran": []}
+meta = {"property": prop, "k": int(k) if k.isdigit() else k, "worktree_commit": sh("git rev-parse --short HEAD")[1].strip(), "ran": []}
 sh("git checkout -- . && git clean -fdq bytecode/tests aelys/tests 2>/dev/null; true")
 base = run_demo()
 rc, o = sh(f"git apply --check {diff} && git apply {diff}")
